@@ -495,6 +495,11 @@ func (c *ctxT) check(cfg cfgT, cl call, status string, wire []byte, lines []stri
 	case len(els) == 0 && len(expEls) > 0:
 		c.fail("one-element", key, lines, "the call returned nil but wrote nothing")
 		return obs
+	case len(expEls) != 1 && len(els) == len(expEls) && !stray && (cl.entry == "enc" || cl.entry == "encel" || cl.entry == "reply" || cl.entry == "replyel"):
+		// round E (review A-5): the VALUE encodes to several top-level elements (or none) and the
+		// call reports success: not "exactly one complete top-level element"
+		c.fail("one-element", "value-of-many-elements", lines, fmt.Sprintf("the value handed to %s encodes to %d top-level elements; the call returned nil and wrote all of them: %q", cl.entry, len(expEls), clip(wire)))
+		return obs
 	case len(els) != len(expEls) || stray:
 		c.fail("one-element", key, lines, fmt.Sprintf("%d top-level elements on the wire (stray=%v), expected %d: %q", len(els), stray, len(expEls), clip(wire)))
 		return obs
@@ -1045,6 +1050,11 @@ func corpus() []call {
 		call{entry: "pres", form: "reader", toks: el("", "presence", nil)},
 		call{entry: "send", form: "reader", toks: el("", "message", nil, xml.CharData(strings.Repeat("A", 70000)))},
 	)
+	// round E (review A-5): a value that encodes to two sibling elements
+	two := append(el("urn:a", "a", nil), el("urn:a", "b", nil)...)
+	for _, f := range []string{"reader", "marshaler", "xmlm"} {
+		cs = append(cs, call{entry: "enc", form: f, toks: two})
+	}
 	// round E (review A-1), witnesses on the tree before `fix: the stanza encoder takes any
 	// attribute with the local name id / from / xmlns ...`: attributes that only share the LOCAL
 	// name with id / from / xmlns are other attributes
